@@ -7,9 +7,11 @@ package main
 
 import (
 	"fmt"
-	"strings"
 	"go/token"
 	"go/types"
+	"os"
+	"sort"
+	"strings"
 
 	"golang.org/x/tools/go/ssa"
 )
@@ -60,7 +62,6 @@ func isConstLoop(li *LoopInfo) bool {
 	// every header phi must be loop-carried in a way unrolling handles; other exits (break) are fine
 	return true
 }
-
 
 // autoAnn synthesises the annotation of an unannotated loop in sweep mode (cached per loop).
 func (fx *Fx) autoAnn(li *LoopInfo) *LoopAnn {
@@ -116,6 +117,8 @@ func (fx *Fx) autoCandidateTerms(li *LoopInfo, pre, cur map[*ssa.Phi]Val) map[st
 			out[name+".end"] = Eq(BVOp("bvadd", cv.L[1], BVOp("bvmul", cv.L[2], stride)), BVOp("bvadd", pv.L[1], BVOp("bvmul", pv.L[2], stride)))
 			out[name+".capend"] = Eq(BVOp("bvadd", cv.L[1], BVOp("bvmul", cv.L[3], stride)), BVOp("bvadd", pv.L[1], BVOp("bvmul", pv.L[3], stride)))
 			out[name+".shrinks"] = BVOp("bvsle", cv.L[2], pv.L[2])
+			// an accumulator that only ever holds nil or memory allocated by this function (x = append(x, ...))
+			out[name+".fresh"] = Or(Eq(cv.L[0], IntConst(0)), fx.P.isFresh(fx, cv.L[0]))
 			out[name+".same"] = And(Eq(cv.L[0], pv.L[0]), Eq(cv.L[1], pv.L[1]), Eq(cv.L[2], pv.L[2]), Eq(cv.L[3], pv.L[3]))
 		}
 	}
@@ -227,18 +230,72 @@ func (fx *Fx) autoLoopEntry(st *State, li *LoopInfo) *State {
 			alive[lbl] = true
 		}
 	}
+	// What the body may write: a preliminary dry run from the entry memory.  Every candidate check below runs the
+	// body on memory in which these locations (and those found by the previous check) hold arbitrary values, i.e.
+	// memory as it may look after any number of iterations.
 	var writes *writeSet
+	{
+		dry0 := st.Clone()
+		nA0 := len(fx.Assume)
+		setPhis(dry0)
+		for lbl := range alive {
+			fx.assume(dry0, cands[lbl])
+		}
+		writes = fx.dryRun(dry0, li, serial0, local0)
+		fx.Assume = fx.Assume[:nA0]
+	}
+	applied := []*writeSet{writes}
+	// heap frame candidates: where a whole kind of memory has to be havocked (writes through loop-varying objects),
+	// "objects that existed when the function was entered keep the contents they had before the loop"
+	preH := st.H
+	heapAlive := map[Kind]bool{}
+	for k := Kind(0); k < numKinds; k++ {
+		if writes.wide[k] {
+			heapAlive[k] = true
+		}
+	}
+	heapFrame := func(k Kind, cur *Term) *Term {
+		o := Bound("o!hf", IntS)
+		return Forall([]*Term{o}, Implies(IntOp("<=", o, Sym("W!0", IntS)), Eq(Select(cur, o), Select(preH[k], o))))
+	}
 	termLabel := ""
+	converged := false
 	for iter := 0; iter < 8; iter++ {
 		dry := st.Clone()
 		nA := len(fx.Assume)
 		setPhis(dry)
+		for _, w := range applied {
+			fx.applyWriteSet(dry, w)
+		}
 		for lbl := range alive {
 			fx.assume(dry, cands[lbl])
 		}
+		for k := range heapAlive {
+			if dry.H[k] != preH[k] {
+				fx.assume(dry, heapFrame(k, dry.H[k]))
+			}
+		}
 		var arrivals []*State
-		writes, arrivals = fx.dryRunKeep(dry, li, serial0, local0)
+		var w2 *writeSet
+		w2, arrivals = fx.dryRunKeep(dry, li, serial0, local0)
+		if os.Getenv("GVC_DEBUG_INV") != "" {
+			fmt.Fprintf(os.Stderr, "[auto-invariants %s loop%d] iteration %d: %d back-edge arrivals, %d candidates\n", fx.Name, li.Ordinal, iter, len(arrivals), len(alive))
+		}
 		dropped := false
+		for k := Kind(0); k < numKinds; k++ {
+			if w2.wide[k] && !heapAlive[k] {
+				wasWide := false
+				for _, w := range applied {
+					if w.wide[k] {
+						wasWide = true
+					}
+				}
+				if !wasWide {
+					// a new kind of memory is written through loop-varying objects: check again under that havoc
+					dropped = true
+				}
+			}
+		}
 		for _, a := range arrivals {
 			nv := map[*ssa.Phi]Val{}
 			for _, p := range phis {
@@ -248,6 +305,29 @@ func (fx *Fx) autoLoopEntry(st *State, li *LoopInfo) *State {
 			}
 			fx.curFrameVals = a.Top().Vals
 			next := fx.autoCandidateTerms(li, pre, nv)
+			if os.Getenv("GVC_DEBUG_INV") != "" && fx.provable(a, Eq(BVConst(0, 64), Sym("dbg!free", B64))) {
+				fmt.Fprintf(os.Stderr, "[auto-invariants %s loop%d] back edge unreachable in iteration %d\n", fx.Name, li.Ordinal, iter)
+			}
+			for k := range heapAlive {
+				if a.H[k] != preH[k] && !fx.provable(a, heapFrame(k, a.H[k])) {
+					delete(heapAlive, k)
+					dropped = true
+				}
+			}
+			// all surviving candidates at once first: at the fixpoint this is the only query
+			all := True()
+			complete := true
+			for lbl := range alive {
+				g, ok := next[lbl]
+				if !ok {
+					complete = false
+					break
+				}
+				all = And(all, g)
+			}
+			if complete && fx.provable(a, all) {
+				continue
+			}
 			for lbl := range alive {
 				g, ok := next[lbl]
 				if !ok || !fx.provable(a, g) {
@@ -260,13 +340,28 @@ func (fx *Fx) autoLoopEntry(st *State, li *LoopInfo) *State {
 			termLabel = fx.autoVariant(li, pre, hv, arrivals)
 		}
 		fx.Assume = fx.Assume[:nA]
+		applied = []*writeSet{writes, w2}
 		if !dropped {
+			converged = true
 			break
 		}
 	}
+	if !converged {
+		// no fixpoint within the iteration limit: nothing is kept
+		alive = map[string]bool{}
+		heapAlive = map[Kind]bool{}
+		termLabel = ""
+	}
 	// havoc and assume the surviving invariants
 	setPhis(st)
-	fx.applyWriteSet(st, writes)
+	for _, w := range applied {
+		fx.applyWriteSet(st, w)
+	}
+	for k := range heapAlive {
+		if st.H[k] != preH[k] {
+			fx.assume(st, heapFrame(k, st.H[k]))
+		}
+	}
 	var kept []string
 	for lbl := range alive {
 		kept = append(kept, lbl)
@@ -277,6 +372,10 @@ func (fx *Fx) autoLoopEntry(st *State, li *LoopInfo) *State {
 		}
 	}
 	ann.Surviving = kept
+	if os.Getenv("GVC_DEBUG_INV") != "" {
+		sort.Strings(kept)
+		fmt.Fprintf(os.Stderr, "[auto-invariants %s loop%d] %v\n", fx.Name, li.Ordinal, kept)
+	}
 	// termination: some measure from the template set strictly decreases (and is non-negative) on every back edge
 	if termLabel == "" {
 		fx.oblige(st, "variant", fmt.Sprintf("loop%d", li.Ordinal), False(), li.Header.Instrs[0].Pos())
